@@ -358,6 +358,28 @@ func (E *Engine) setField(si *structInfo, v *Term, i int, x *Term) *Term {
 			args[j] = E.field(si, v, j)
 		}
 	}
+	return E.mkStruct(si, args)
+}
+
+// mkStruct builds a struct value; rebuilding a value from its own fields yields the value.
+func (E *Engine) mkStruct(si *structInfo, args []*Term) *Term {
+	var src *Term
+	same := len(args) > 0
+	for i, a := range args {
+		if a.op != si.fields[i].name || len(a.args) != 1 {
+			same = false
+			break
+		}
+		if i == 0 {
+			src = a.args[0]
+		} else if a.args[0] != src {
+			same = false
+			break
+		}
+	}
+	if same && src != nil && src.sort == si.sort {
+		return src
+	}
 	return E.tb.App(si.ctor, si.sort, args...)
 }
 
